@@ -415,11 +415,13 @@ struct Recorded
   std::string opErrors;
   uint64_t unmodelled = 0;
   std::string unmodelledWhat;
+  bool dirChecked = false, dirMatches = true; // image rebuilt from the log == directory at the crash instant
 };
 
 // Run `ops` on a real store opened on top of `base` (materialised into env.dir), recording the file
 // mutations.  The store is then destroyed with recording off: the crash images come from the log.
-inline Recorded recordScript(Env &env, const cfs::Image &base, const Adm &A0, const std::string &ops, uint64_t *instances)
+inline Recorded recordScript(Env &env, const cfs::Image &base, const Adm &A0, const std::string &ops, uint64_t *instances,
+                             bool verifyDir = false)
 {
   Recorded r;
   r.ops = ops;
@@ -471,6 +473,16 @@ inline Recorded recordScript(Env &env, const cfs::Image &base, const Adm &A0, co
     r.ev = cfs::log();
     r.unmodelled = cfs::unmodelled();
     r.unmodelledWhat = cfs::unmodelledWhat();
+    if (verifyDir)
+    {
+      // the directory as the crash would leave it (the store object is still alive, nothing more is flushed)
+      cfs::Image model = base, real = cfs::Image::readDir(env.dir);
+      for (auto &e : r.ev)
+        if (e.mutation())
+          model.apply(e);
+      r.dirChecked = true;
+      r.dirMatches = model.files == real.files;
+    }
     st.close(); // not recorded: a crash runs no destructor
   }
   for (size_t i = 0; i < r.ev.size(); ++i)
@@ -530,18 +542,27 @@ inline Adm admForImage(const Recorded &r, int m, uint64_t cut, bool *emptyInters
   Adm a = admAtInstant(r, lo, &inCall);
   if (boundary && !inCall)
     *boundary = true;
+  Adm latest = a;
   for (size_t j = lo + 1; j <= hi; ++j)
   {
     Adm b = admAtInstant(r, j, &inCall);
     if (boundary && !inCall)
       *boundary = true;
     for (int k = 0; k < NKEYS; ++k)
-    {
       a.k[k] = ksIntersect(a.k[k], b.k[k]);
-      if (a.k[k].empty() && emptyIntersection)
+    latest = b;
+  }
+  // Empty intersection: two instants that demand different states share one image, i.e. a call changed a
+  // key and returned without any file operation in between.  The image cannot reflect that call, so it
+  // fails the later instant whatever it shows: judge it against the latest instant (everything
+  // acknowledged so far), which reports the loss as what it is.
+  for (int k = 0; k < NKEYS; ++k)
+    if (a.k[k].empty())
+    {
+      a.k[k] = latest.k[k];
+      if (emptyIntersection)
         *emptyIntersection = true;
     }
-  }
   return a;
 }
 
@@ -952,7 +973,7 @@ inline std::vector<Finding> runCont(Ctx &c, const ImageCtx &I, const Cont &ct, b
           bool emptyI = false, boundary = false;
           Adm A2 = admForImage(r2, m, cut, &emptyI, &boundary);
           if (emptyI)
-            c.sink->violation("harness-internal", "empty-admissible-set", "kv h=" + c.hist, "second level");
+            c.sink->count("images_shared_by_instants_with_different_acknowledged_state");
           cfs::Image x = im2;
           if (cut > 0)
             x.applyPartial(r2.ev[size_t(r2.mutIdx[size_t(m)])], cut);
@@ -1026,7 +1047,7 @@ inline Level1 recordHistory(Ctx &c, const std::string &hist)
 {
   Level1 L;
   c.hist = hist;
-  L.rec = recordScript(*c.env, cfs::Image(), admEmpty(), hist, &c.instances);
+  L.rec = recordScript(*c.env, cfs::Image(), admEmpty(), hist, &c.instances, true);
   const Recorded &r = L.rec;
   for (int k = 0; k < NKEYS; ++k)
     c.ever[k].clear();
@@ -1093,7 +1114,8 @@ inline ImageCtx imageCtx(Ctx &c, const Recorded &r, int m, uint64_t cut, const s
   bool emptyI = false, boundary = false;
   I.A = admForImage(r, m, cut, &emptyI, &boundary);
   if (emptyI)
-    c.sink->violation("harness-internal", "empty-admissible-set", "kv h=" + histForMsg, I.A.str());
+    c.sink->count("images_shared_by_instants_with_different_acknowledged_state");
+  (void)histForMsg;
   I.im = imageAt(r, m, cut);
   lastOpCls(r, m, cut, I.cls);
   // an image that is also the image of an instant between two calls: every acknowledged call is the last
@@ -1263,7 +1285,10 @@ inline void checkRecording(Ctx &c, const Level1 &L)
   for (size_t i = 0; i < L.rec.acked.size(); ++i)
     if (!L.rec.acked[i] && !L.rec.openFailed)
       c.sink->violation("harness-internal", "history-op-threw", id.str(), L.rec.opErrors);
-  // the final image of a crash-free run must equal the real directory (the log is complete)
+  // the image rebuilt from the log must be the directory the run left behind at the crash instant
+  if (L.rec.dirChecked && !L.rec.dirMatches)
+    c.sink->violation("harness-internal", "log-does-not-rebuild-directory", id.str(),
+                      "image rebuilt from the recorded log differs from the directory at the end of the history (before the store object is destroyed)");
 }
 
 } // namespace c11
